@@ -195,26 +195,16 @@ func c14bExec(k c14bConfig, prefix []int, atomic bool) (*sched.Run, string, *dri
 // c14bRun explores one configuration; returns violations through fail.
 func c14bRun(k c14bConfig, bound int, rep *Report, ci int) {
 	// 1. the sequential specification: outcomes under atomic handler calls (all schedules)
-	spec := map[string]bool{}
 	var lastView string
 	var lastPanic *drive.PanicInfo
-	at := &sched.Explorer{Bound: -1, MaxRuns: 200000, Prune: true} // every serial order, no bound (states merged on thread progress + environment history)
-	at.Exec = func(prefix []int) *sched.Run {
-		run, view, pi := c14bExec(k, prefix, true)
-		lastView, lastPanic = view, pi
-		return run
-	}
-	at.Check = func(run *sched.Run) bool {
-		rep.Executions++
-		rep.TracesImpl++
-		rep.States += int64(len(run.Points))
-		if !run.Deadlock && !run.Livelock && lastPanic == nil {
-			spec[lastView] = true
-		}
-		return true
-	}
-	at.Explore()
-	rep.Transitions += int64(at.Transitions)
+	atExhaustive := true
+	spec := c14bSpec(k, func(at *sched.Explorer, runs, states int64) {
+		rep.Executions += runs
+		rep.TracesImpl += runs
+		rep.States += states
+		rep.Transitions += int64(at.Transitions)
+		atExhaustive = at.Exhaustive
+	})
 	attrs := map[string]string{"harness": "intra-stream", "headers-set-by": map[bool]string{false: "handler-before-goroutines", true: "writer-goroutine"}[k.HdrLate], "~client": k.Client.String(), "~codecs": k.ClientCod + ">" + k.TargetCod, "~fault": fmt.Sprint(k.Fault), "~config": k.String()}
 	nviol := 0
 	ex := &sched.Explorer{Bound: bound, MaxRuns: 400000}
@@ -233,23 +223,8 @@ func c14bRun(k c14bConfig, bound int, rep *Report, ci int) {
 				rep.Violations = append(rep.Violations, Found{Scenario: "custom", V: xplorViolation(clause, fmt.Sprintf(format, args...)+"\nconfig: "+k.String()+"\nschedule: "+compressTrace(run.Trace), attrs, run.Choices(), []string{fmt.Sprintf("bconfig=%d", ci)})})
 			}
 		}
-		switch {
-		case run.Deadlock:
-			fail("C14.deadlock", "threads blocked: %v", run.Blocked)
-		case run.Livelock:
-			fail("C14.livelock", "step horizon reached")
-		case lastPanic != nil:
-			fail("C14.panic", "ServeHTTP panicked: %s\n%s", lastPanic.Value, stackTop(lastPanic.Stack))
-		case !spec[lastView]:
-			var alts []string
-			for v := range spec {
-				alts = append(alts, short(v))
-			}
-			sort.Strings(alts)
-			if len(alts) > 3 {
-				alts = alts[:3]
-			}
-			fail("C14.stream-outcome-not-serializable", "the client-visible result of the stream is not one that any serial order of the handler's Read/Write calls produces\n observed: %s\n serial outcomes (%d): %s", short(lastView), len(spec), strings.Join(alts, "\n   "))
+		for _, f := range c14bJudge(run, lastView, lastPanic, spec) {
+			fail(f[0], "%s", f[1])
 		}
 		rep.Nontrivial["B:"+k.String()+fmt.Sprint(run.Choices())] = struct{}{}
 		rep.Outcomes["intra-stream"]++
@@ -257,7 +232,58 @@ func c14bRun(k c14bConfig, bound int, rep *Report, ci int) {
 	}
 	ex.Explore()
 	rep.Transitions += int64(ex.Transitions)
-	if !ex.Exhaustive || !at.Exhaustive {
+	if !ex.Exhaustive || !atExhaustive {
 		rep.Exhaustive = false
 	}
+}
+
+// c14bSpec computes the sequential specification of a configuration: the set of client-visible
+// outcomes over every serial order of the handler's (atomic) Read / Write calls.
+func c14bSpec(k c14bConfig, account func(at *sched.Explorer, runs, states int64)) map[string]bool {
+	spec := map[string]bool{}
+	var lastView string
+	var lastPanic *drive.PanicInfo
+	var runs, states int64
+	at := &sched.Explorer{Bound: -1, MaxRuns: 200000, Prune: true} // every serial order, no bound (states merged on thread progress + environment history)
+	at.Exec = func(prefix []int) *sched.Run {
+		run, view, pi := c14bExec(k, prefix, true)
+		lastView, lastPanic = view, pi
+		return run
+	}
+	at.Check = func(run *sched.Run) bool {
+		runs++
+		states += int64(len(run.Points))
+		if !run.Deadlock && !run.Livelock && lastPanic == nil {
+			spec[lastView] = true
+		}
+		return true
+	}
+	at.Explore()
+	if account != nil {
+		account(at, runs, states)
+	}
+	return spec
+}
+
+// c14bJudge is the oracle of harness B for one finished schedule.
+func c14bJudge(run *sched.Run, view string, pi *drive.PanicInfo, spec map[string]bool) [][2]string {
+	switch {
+	case run.Deadlock:
+		return [][2]string{{"C14.deadlock", fmt.Sprintf("threads blocked: %v", run.Blocked)}}
+	case run.Livelock:
+		return [][2]string{{"C14.livelock", "step horizon reached"}}
+	case pi != nil:
+		return [][2]string{{"C14.panic", fmt.Sprintf("ServeHTTP panicked: %s\n%s", pi.Value, stackTop(pi.Stack))}}
+	case !spec[view]:
+		var alts []string
+		for v := range spec {
+			alts = append(alts, short(v))
+		}
+		sort.Strings(alts)
+		if len(alts) > 3 {
+			alts = alts[:3]
+		}
+		return [][2]string{{"C14.stream-outcome-not-serializable", fmt.Sprintf("the client-visible result of the stream is not one that any serial order of the handler's Read/Write calls produces\n observed: %s\n serial outcomes (%d): %s", short(view), len(spec), strings.Join(alts, "\n   "))}}
+	}
+	return nil
 }
